@@ -20,7 +20,10 @@ MANIFEST = dict(
           "degree from an oracle table (trusted). The dimension `dimensionless` is a dimension like any other: the catalogue is run "
           "again with SCALED DIMENSIONLESS units of symbolic scale (percent-, m/km-, mol/mmol-like) in place of the length units, and the "
           "mixed-unit family has operands in two different dimensionless units (atomic, compound ratio, the unscaled `dimensionless`, "
-          "a bare number). Bounded: template catalogue, shapes <= (2,3)."),
+          "a bare number). Two further discrete axes are walked over the whole catalogue: ALIASING (the same array object in two argument "
+          "positions, operand/operand and out=/operand, incl. products of 3-4 operands in different units such as einsum('i,ij,j->', x, A, x)) "
+          "and the SPELLING OF OPTION ARGUMENTS (every flag as bool / np.bool_ / 0-1, truthy and falsy; every int / float option as "
+          "np.int64 / np.float64). Bounded: template catalogue, shapes <= (2,3)."),
     design="DESIGN.md section 4 C07",
     technique="metamorphic symbolic execution of the real Python code over z3 real terms (unit re-expression); SMT (QF_NRA/UF) obligations per path; counterexample replay")
 EXPLANATION = (
@@ -40,7 +43,20 @@ EXPLANATION = (
     "atomic one), dl-one-first / dl-one-second (one operand in the unscaled `dimensionless` == NULL_UNIT), and for np.isclose/np.allclose "
     "dl-bare-first / dl-bare-second (that operand is a plain ndarray, which denotes dimensionless numbers), over all merging/validating "
     "calls plus ten further call forms of isclose/allclose (swapped operands, 0-d, broadcast, atol= as a quantity in either unit, bare "
-    "atol = a difference in the unit of b, re-expressed with b).")
+    "atol = a difference in the unit of b, re-expressed with b). "
+    "Identity of operands (family `alias`): for every template in which two array arguments are created with the same shape and value "
+    "constraints (two quantity operands, or an out= buffer and an operand of its unit group), one case per such pair in which the later "
+    "position receives the VERY SAME Python object as the earlier one (np.dot(a, a), np.clip(a, lo, lo), np.concatenate([a, a]), "
+    "np.dot(a, b, out=a), einsum('i,ij,j->', x, A, x)); same obligations; where the aliased operand was the only one of its dimension "
+    "group the dimension oracle is rewritten by the harness (its exponent moves to the group of the object it became), otherwise it is "
+    "dropped and covariance alone is decided. C07-only templates add products of three and four operands in different units "
+    "(einsum quadratic form, triple and quadruple contractions, out=, sublist call form, matrix sandwiches; linalg.multi_dot chains). "
+    "Spelling of option arguments (families `flag-npbool`, `flag-int`, `arg-npscalar`): every template that passes a python bool "
+    "(resp. int / float) at the top level of a call through the numpy namespace is re-run with that argument spelled np.bool_ / "
+    "the integer 0-1 (resp. np.int64 / np.float64), in positional and keyword position alike; NumPy reads these by truth value / "
+    "operator.index, so the call is the same call; C07-only templates add the explicit falsy flags (density=False, retstep=False, "
+    "return_indices=False, returned=False ...) so that 0 / np.False_ are walked too. The positions are found by a dry run of the "
+    "template on float placeholders with a recording argument factory and numpy namespace.")
 BOUNDS = {
     "quick": "the `quick` subset of the template catalogue, shapes (), (2,), (3,), (2,2), (2,3); groups length/time/temperature; plus the "
              "mixed-unit family (both tiers): 48 merging/validating calls (concatenate, stack family, block, append, where, select, choose, "
@@ -50,12 +66,17 @@ BOUNDS = {
              "scaled-dimensionless region (both tiers): the same 48 calls x 4 kinds of dimensionless unit pair (dl-scale, dl-ratio without "
              "the histogram/interp kernels, dl-one-first, dl-one-second), 10 further isclose/allclose call forms x (scale + the 4 dl kinds), "
              "isclose/allclose with atol=0 x 2 bare-operand kinds; and the family `dimless`: every quick template with a length operand "
-             "(except the operand-rank sweep rank/*) re-run with scaled dimensionless units of symbolic scale in place of the lengths",
+             "(except the operand-rank sweep rank/*) re-run with scaled dimensionless units of symbolic scale in place of the lengths; "
+             "plus (both tiers) 22 C07-only templates (3-4 operand products, explicit falsy flags) and the families alias (every pair of "
+             "equally shaped array arguments of every quick template, one pair aliased per case; not sweep/, round/, *mixdim), flag-npbool "
+             "and flag-int (every quick template with a bool argument), arg-npscalar (quick: templates of functions that have a unyt handler, "
+             "without rank/ and round/)",
     "thorough": "the full template catalogue: positional / keyword / out= variants, equal and ragged extents, two different units of one "
                 "dimension inside one call (coherent factor), plus a shape x axis sweep of 25 single-operand functions over (), (1,), (0,), (2,3), "
                 "(3,2), (1,2), (2,2,2); sorting-type functions with axis=None only up to 3 elements; family `dimless` over the full "
                 "catalogue except the shape sweep sweep/* and the thorough-only part of the operand-rank sweep rank/* (they vary shape "
-                "and rank of the same calls, not the unit handling)",
+                "and rank of the same calls, not the unit handling); families alias / flag-npbool / flag-int over the full catalogue "
+                "(alias without sweep/, round/, *mixdim), arg-npscalar over the full catalogue without sweep/, rank/, round/",
 }
 OUTSIDE = ("IEEE rounding (bit-for-bit covariance under power-of-two rescaling is not claimed: A1); integer/complex payloads; offset units "
            "(C08); bare numbers standing for dimensional arguments are rescaled with their group (they denote a quantity in the unit of "
@@ -67,7 +88,13 @@ OUTSIDE = ("IEEE rounding (bit-for-bit covariance under power-of-two rescaling i
            "accepted for `dimensionless` next to a bare number and refused for a scaled dimensionless unit is not judged (refusal is "
            "allowed); bare operands next to scaled dimensionless ones only for isclose/allclose (elsewhere unyt has no stated rule: "
            "np.clip(a%, 0.3, 0.4) reads the bare bounds in percent); a bare atol only with b carrying units; ndarray.var/std on scaled "
-           "dimensionless input only with concrete dyadic scales (sympy cannot hold a z3 term); dl-ratio not for the histogram/interp kernels")
+           "dimensionless input only with concrete dyadic scales (sympy cannot hold a z3 term); dl-ratio not for the histogram/interp kernels; "
+           "aliasing: one pair per case (not three positions at once), whole-object identity only (overlapping views of one buffer are not "
+           "walked), across dimension groups not for Tier-2 kernels and not for out= buffers; option spellings: only arguments at the top "
+           "level of a call made through the numpy namespace (not inside tuples / lists, not arguments of ndarray METHODS), the mixed-unit "
+           "and scaled-dimensionless families are not re-run under either axis; a call that raises in both unit systems is accepted also when "
+           "only the spelling made it raise (the property allows refusal); np.unique(axis=) (NumPy refuses the object payload: see "
+           "coverage `numpy_refuses_object_payload`)")
 CONFORM = {"quick": 40, "thorough": 120}
 
 
@@ -417,7 +444,7 @@ def dimless_templates(tier):
     quick part of `rank/` only (both sweeps vary rank and shape of the same calls, not the unit handling)"""
     out = []
     for t in select(tier, "c07"):
-        if not any(g in DIMLESS_GROUPS for g in t.groups) or t.name.startswith("sweep/"):
+        if not any(g in DIMLESS_GROUPS for g in t.groups) or t.name.startswith("sweep/") or t.name in NUMPY_REFUSES:
             continue
         if t.name.startswith("rank/") and (tier == "quick" or not t.quick):
             continue
@@ -425,10 +452,286 @@ def dimless_templates(tier):
     return out
 
 
+# ============================================================================================ identity of operands, spelling of options
+# Two further discrete axes, walked over the WHOLE catalogue (not per function): they are properties of the call, not of the numbers.
+#
+#  (1) ALIASING: the same Python object in two argument positions - x in np.einsum("i,ij,j->", x, A, x), np.dot(a, a),
+#      np.clip(a, lo, lo), np.concatenate([a, a]), np.multiply-like out=a. A handler may take a shortcut on `a is b` (or deduplicate its
+#      operands by identity) that an equal but distinct array never reaches. Family `alias`: every template in which two operands
+#      (quantity operands or an out= buffer and an operand) are created with the same shape and value constraints, once per such
+#      pair (j, i): position j receives the very object of position i (which then also decides its unit group).
+#  (2) SPELLING OF OPTION ARGUMENTS: NumPy reads flags by truth value and counts through operator.index, so density=True,
+#      density=np.True_ (what every NumPy comparison returns) and density=1 request the same thing, as do axis=1 and
+#      axis=np.int64(1). A handler that tests `flag is True`, `type(n) is int`, `isinstance(dx, float)` silently takes another
+#      branch. Families `flag-npbool` / `flag-int` (every bool passed at the top level of a call through the numpy namespace
+#      becomes np.bool_ / 0-1) and `arg-npscalar` (every python int / float becomes np.int64 / np.float64).
+#
+# Which templates have such positions is learned from a dry run of the template on float placeholders with a recording argument
+# factory and a recording numpy namespace (no unyt involved).
+import copy
+import inspect
+import warnings
+
+
+class _RecEnv:
+    """argument factory of the dry run: plain float arrays, records what the template asks for"""
+
+    def __init__(self):
+        self.ops, self.made, self.group = [], {}, {}
+
+    def q(self, name, group="L", shape=(2,), pos=False, nonzero=False, increasing=False, lo=None, hi=None, pattern=None):
+        if pattern is not None:
+            x = np.asarray(pattern, dtype=float)
+            shape = x.shape
+        else:
+            x = np.arange(1.0, 1.0 + int(np.prod(shape, dtype=int))).reshape(shape) * 1.5
+        self.ops.append(dict(kind="q", name=name, group=group, shape=tuple(shape),
+                             cons=(pos, nonzero, increasing, lo, hi, None if pattern is None else repr(pattern))))
+        self.made[name], self.group[name] = x, group
+        return x
+
+    def raw(self, name, shape=(2,), **kw):
+        return self.q(name, "bare", shape, **kw)
+
+    def num(self, name, group="L", **kw):
+        self.ops.append(dict(kind="num", name=name, group=group, shape=None, cons=None))
+        return 1.25
+
+    def out(self, name, group, shape):
+        x = np.zeros(shape)
+        self.ops.append(dict(kind="out", name=name, group=group, shape=tuple(shape), cons=None))
+        self.made[name], self.group[name] = x, group
+        return x
+
+    def const(self, values, group=None):
+        return np.asarray(values, dtype=float)
+
+
+class _NPProxy:
+    """numpy namespace that hands every top-level call (function, args, kwargs) to `hook` before forwarding it"""
+
+    def __init__(self, real, hook):
+        self._real, self._hook = real, hook
+
+    def __getattr__(self, k):
+        v = getattr(self._real, k)
+        if inspect.ismodule(v):
+            return _NPProxy(v, self._hook)
+        if callable(v) and not isinstance(v, type):
+            hook = self._hook
+
+            def f(*a, **kw):
+                a, kw = hook(v, a, kw)
+                return v(*a, **kw)
+            return f
+        return v
+
+
+_DRY = {}
+
+
+def dry_run(t):
+    """-> (operands asked for, [(args, kwargs) of every call through the numpy namespace])"""
+    if id(t) not in _DRY:
+        E, log = _RecEnv(), []
+
+        def hook(f, a, kw):
+            log.append((a, kw))
+            return a, kw
+        with warnings.catch_warnings(), np.errstate(all="ignore"):
+            warnings.simplefilter("ignore")
+            try:
+                t.fn(_NPProxy(np, hook), E)
+            except Exception:  # noqa: BLE001 - NumPy refusing the placeholder call: the arguments are recorded before
+                pass
+        _DRY[id(t)] = (E.ops, log)
+    return _DRY[id(t)]
+
+
+def _derive(t, name, fn, **attrs):
+    d = copy.copy(t)
+    d.name, d.fn = name, fn
+    for k, v in attrs.items():
+        setattr(d, k, v)
+    return d
+
+
+# ---- (1) aliasing
+class _AliasEnv:
+    """view of an Env in which the operands named in `same` are not created: they ARE the object made earlier under another name"""
+
+    def __init__(self, E, same):
+        self._E, self._same = E, same
+
+    def __getattr__(self, k):
+        return getattr(self._E, k)
+
+    def _alias(self, name):
+        E, src = self._E, self._same[name]
+        E.made[name], E.group[name] = E.made[src], E.group[src]
+        return E.made[name]
+
+    def q(self, name, *a, **kw):
+        return self._alias(name) if name in self._same else self._E.q(name, *a, **kw)
+
+    def out(self, name, *a, **kw):
+        return self._alias(name) if name in self._same else self._E.out(name, *a, **kw)
+
+    def raw(self, name, shape=(2,), **kw):
+        return self.q(name, "bare", shape, **kw)
+
+
+_UNITLESS = ("bare", None)
+
+
+def _alias_dim(spec, gj, gi):
+    """dimension oracle of the call in which the only operand of group gj has become an operand of group gi"""
+    if isinstance(spec, list):
+        return [_alias_dim(s, gj, gi) for s in spec]
+    if isinstance(spec, dict) and gj in spec:
+        d = dict(spec)
+        e = d.pop(gj)
+        d[gi] = d.get(gi, 0) + e
+        return {g: x for g, x in d.items() if x != 0}
+    return spec
+
+
+def alias_templates(templates):
+    out = []
+    for t in templates:
+        if "mixdim" in t.name or t.name.startswith(("sweep/", "round/")):
+            continue   # mixdim: aliasing turns the call into the equal-dimension form that is in the catalogue anyway
+        ops, _ = dry_run(t)
+        arr = [o for o in ops if o["kind"] in ("q", "out") and o["group"] not in _UNITLESS]
+        for j, oj in enumerate(arr):
+            for oi in arr[:j]:
+                if oi["name"] == oj["name"] or oi["shape"] != oj["shape"] or oi["kind"] == "out":
+                    continue
+                if oj["kind"] == "q" and oi["cons"] != oj["cons"]:
+                    continue
+                gi, gj = oi["group"], oj["group"]
+                dim = t.dim
+                if gi != gj:
+                    if oj["kind"] == "out" or t.tier == 2 or "1" in (gi, gj):
+                        continue   # an out= buffer keeps its own unit group; Tier-2 argument groups are declared per kernel argument
+                    others = [o for o in ops if o["group"] == gj and o["name"] != oj["name"]]
+                    dim = _alias_dim(t.dim, gj, gi) if not others else None
+                same = {oj["name"]: oi["name"]}
+                out.append(_derive(t, f"alias/{t.name}/{oj['name']}={oi['name']}", (lambda t, same: lambda N, E: t.fn(N, _AliasEnv(E, same)))(t, same), dim=dim))
+    return out
+
+
+# ---- (2) spelling of option arguments
+def _spell_npbool(v):
+    return np.bool_(v) if isinstance(v, bool) else v
+
+
+def _spell_int(v):
+    return int(v) if isinstance(v, bool) else v
+
+
+def _spell_npscalar(v):
+    if type(v) is int:
+        return np.int64(v)
+    if type(v) is float:
+        return np.float64(v)
+    return v
+
+
+SPELLINGS = {"flag-npbool": (_spell_npbool, (bool,)), "flag-int": (_spell_int, (bool,)), "arg-npscalar": (_spell_npscalar, (int, float))}
+
+
+def _has_option(t, types):
+    _, log = dry_run(t)
+    return any(type(v) in types for a, kw in log for v in list(a) + list(kw.values()))
+
+
+def spelled_templates(templates, family):
+    sp, types = SPELLINGS[family]
+
+    def hook(f, a, kw):
+        return tuple(sp(v) for v in a), {k: sp(v) for k, v in kw.items()}
+    return [_derive(t, f"{family}/{t.name}", (lambda t: lambda N, E: t.fn(_NPProxy(N, hook), E))(t)) for t in templates if _has_option(t, types)]
+
+
+# ---- templates of C07 only: products of three and more operands in different units (the forms in which an operand can recur around
+# another one), and explicit falsy flags (so that the falsy spellings 0 / np.False_ are walked as well)
+DLLT = {"L": 2, "T": 1}
+_LT = ("L", "T")
+
+
+def _xax(E, sa=(2,), sb=(2, 2), sc=(2,), g=("L", "T", "L")):
+    return E.q("a", g[0], sa), E.q("b", g[1], sb), E.q("c", g[2], sc)
+
+
+EXTRA = [
+    Tpl("np.einsum/quadratic-form", "numpy.einsum", lambda N, E: N.einsum("i,ij,j->", *_xax(E)), groups=_LT, dim=DLLT),
+    Tpl("np.einsum/triple-LTL", "numpy.einsum", lambda N, E: N.einsum("i,i,i->", *_xax(E, sb=(2,))), groups=_LT, dim=DLLT),
+    Tpl("np.einsum/triple-LLT", "numpy.einsum", lambda N, E: N.einsum("i,i,i->i", *_xax(E, sb=(2,), g=("L", "L", "T"))), groups=_LT, dim=DLLT),
+    Tpl("np.einsum/triple-TLL-out", "numpy.einsum", lambda N, E: N.einsum("i,i,i->i", *_xax(E, sb=(2,), g=("T", "L", "L")), out=E.out("o", "L", (2,))), groups=_LT, dim=DLLT, quick=False),
+    Tpl("np.einsum/four-LTLT", "numpy.einsum", lambda N, E: N.einsum("i,i,i,i->", *_xax(E, sb=(2,)), E.q("d", "T", (2,))), groups=_LT, dim={"L": 2, "T": 2}),
+    Tpl("np.einsum/sandwich-matrices", "numpy.einsum", lambda N, E: N.einsum("ij,jk,kl->il", *_xax(E, (2, 2), (2, 2), (2, 2))), groups=_LT, dim=DLLT, quick=False),
+    Tpl("np.einsum/sublist-form", "numpy.einsum", lambda N, E: (lambda a, b, c: N.einsum(a, [0], b, [0, 1], c, [1]))(*_xax(E)), groups=_LT, dim=DLLT,
+        note="NumPy's second call form einsum(op0, sublist0, op1, sublist1, ...): no subscripts string in front"),
+    Tpl("np.linalg.multi_dot/ABA", "numpy.linalg.multi_dot", lambda N, E: N.linalg.multi_dot(list(_xax(E, (2, 2), (2, 2), (2, 2)))), groups=_LT, dim=DLLT),
+    Tpl("np.linalg.multi_dot/AAB", "numpy.linalg.multi_dot", lambda N, E: N.linalg.multi_dot(list(_xax(E, (2, 2), (2, 2), (2, 2), g=("L", "L", "T")))), groups=_LT, dim=DLLT, quick=False),
+    Tpl("np.linalg.multi_dot/xAx", "numpy.linalg.multi_dot", lambda N, E: N.linalg.multi_dot(list(_xax(E))), groups=_LT, dim=DLLT),
+    Tpl("np.linalg.multi_dot/four", "numpy.linalg.multi_dot", lambda N, E: N.linalg.multi_dot(list(_xax(E, (2, 2), (2, 2), (2, 2))) + [E.q("d", "T", (2, 2))]), groups=_LT,
+        dim={"L": 2, "T": 2}, quick=False),
+    # explicit falsy / default-valued flags
+    Tpl("np.histogram/density-false", "numpy.histogram", lambda N, E: N.histogram(E.q("a", "L", (3,)), bins=2, density=False), dim=["bare", {"L": 1}], tier=2, kargs={"a": "L"}),
+    Tpl("np.histogram/density-false-weights", "numpy.histogram", lambda N, E: N.histogram(E.q("a", "L", (3,)), 2, None, False, E.q("w", "T", (3,))), groups=_LT,
+        dim=[{"T": 1}, {"L": 1}], tier=2, kargs={"a": "L", "weights": "T"}),
+    Tpl("np.histogram2d/density-false", "numpy.histogram2d", lambda N, E: N.histogram2d(E.q("a", "L", (3,)), E.q("b", "T", (3,)), bins=2, density=False), groups=_LT,
+        dim=["bare", {"L": 1}, {"T": 1}], tier=2, kargs={"x": "L", "y": "T"}),
+    Tpl("np.histogramdd/density-false", "numpy.histogramdd", lambda N, E: N.histogramdd([E.q("a", "L", (3,)), E.q("b", "T", (3,))], bins=2, density=False), groups=_LT,
+        dim=["bare", [{"L": 1}, {"T": 1}]], tier=2, kargs={("sample", 0): "L", ("sample", 1): "T"}),
+    Tpl("np.linspace/retstep-false", "numpy.linspace", lambda N, E: N.linspace(E.q("a", "L", ()), E.q("b", "L", ()), 3, True, False), dim={"L": 1}),
+    Tpl("np.intersect1d/indices-false", "numpy.intersect1d", lambda N, E: N.intersect1d(E.q("a", "L", (2,)), E.q("b", "L", (2,)), False, False), dim={"L": 1}),
+    Tpl("np.linalg.svd/compute_uv-kw", "numpy.linalg.svd", lambda N, E: N.linalg.svd(E.q("a", "L", pattern=[[1, 2, 0], [0, 1, 3]]), compute_uv=True), dim=["bare", {"L": 1}, "bare"],
+        tier=2, kargs={"a": "L"}),
+    Tpl("np.unique/flags-false", "numpy.unique", lambda N, E: N.unique(E.q("a", "L", (2,)), False, False, False), dim={"L": 1}),
+    Tpl("np.average/returned-false", "numpy.average", lambda N, E: N.average(E.q("a", "L", (2,)), weights=E.q("w", "T", (2,), pos=True), returned=False), groups=_LT, dim={"L": 1}),
+    Tpl("np.sum/keepdims-false", "numpy.sum", lambda N, E: N.sum(E.q("a", "L", (2, 2)), 1, None, None, False), dim={"L": 1}, quick=False),
+    Tpl("np.copyto/where-true", "numpy.copyto", lambda N, E: N.copyto(E.q("a", "L", (2,)), E.q("b", "L", (2,)), where=True)),
+]
+
+
+def extra_templates(tier):
+    return [t for t in EXTRA if t.quick or tier != "quick"]
+
+
+# templates of the shared catalogue that cannot be decided here: NumPy itself refuses the object payload in BOTH runs before any unyt code
+# decides, so the symbolic case would only ever see "raises in both unit systems" (vacuous) while float data take another route
+NUMPY_REFUSES = {
+    "np.unique/axis": "np.unique(axis=) is not supported for dtype object (TypeError from NumPy). By hand on plain unyt: np.unique([[1.],[2.]] m, axis=0) "
+                      "returns a BARE ndarray (np.unique without axis keeps the unit) - seen in the float conformance run only, not decidable symbolically",
+}
+
+
+def catalogue(tier):
+    return [t for t in select(tier, "c07") if t.name not in NUMPY_REFUSES] + extra_templates(tier)
+
+
+def family_templates(tier, mods):
+    """-> {family: derived templates} of the aliasing and option-spelling axes"""
+    base = catalogue(tier)
+    fam = {"alias": alias_templates(base)}
+    for f in ("flag-npbool", "flag-int"):
+        fam[f] = spelled_templates(base, f)
+    sc = [t for t in base if not t.name.startswith(("sweep/", "rank/", "round/"))]
+    if tier == "quick":
+        # quick: numpy-scalar spellings only where a unyt handler receives the argument (functions without a handler hand it to NumPy)
+        handled = set(handler_coverage(mods)[0])
+        sc = [t for t in sc if t.key in handled]
+    fam["arg-npscalar"] = spelled_templates(sc, "arg-npscalar")
+    return fam
+
+
 def cases(tier, mods):
     check_names(mods, NAMES)
     install_numpy_patches()
-    out = [make_case(t) for t in select(tier, "c07")]
+    out = [make_case(t) for t in catalogue(tier)]
     out += [make_mixed_case(t, kind) for kind in MIX_KINDS for t in MIXED
             if not (kind == "affine" and t.name == "np.histogram/range-both-other")]   # quick and thorough
     # ---- scaled dimensionless units (quick and thorough)
@@ -438,6 +741,9 @@ def cases(tier, mods):
     out += [make_mixed_case(t, kind) for kind in ("scale",) + DL_KINDS for t in CMP_FORMS + CMP_TOL_FORMS]
     cmp_atol0 = [t for t in MIXED if t.key in ("numpy.isclose", "numpy.allclose")] + CMP_FORMS
     out += [make_mixed_case(t, kind) for kind in DL_BARE_KINDS for t in cmp_atol0]
+    # ---- identity of operands, spelling of option arguments (quick and thorough)
+    for fam, ts in family_templates(tier, mods).items():
+        out += [make_case(t) for t in ts]
     return out
 
 
@@ -447,6 +753,9 @@ def coverage_extra(results, tier):
     out["dimension_oracle_entries"] = sum(1 for t in select(tier, "c07") if t.dim is not None)
     out["templates_checked_for_dimension_only"] = sorted(t.name for t in select(tier, "c07") if not t.cov)
     ids = [r["id"] for r in results]
+    out["numpy_refuses_object_payload"] = dict(NUMPY_REFUSES)
+    out["c07_only_templates"] = sorted(t.name for t in extra_templates(tier))
+    out["identity_and_spelling_axes"] = {f: sum(1 for i in ids if i.startswith(f"C07/{f}/")) for f in ("alias", "flag-npbool", "flag-int", "arg-npscalar")}
     out["scaled_dimensionless"] = dict(
         templates_rerun_with_dimensionless_units=sum(1 for i in ids if i.startswith("C07/dimless")),
         of_which_with_concrete_dyadic_scales=sum(1 for i in ids if i.startswith("C07/dimless-dyadic/")),
